@@ -323,6 +323,15 @@ def job_stack(kind):
         env = {'self': wobj, 'running_layer_masses': mass_below}
         exec(compile(ast.Module(body=[stm[0]], type_ignores=[]), 'layered.py:mass', 'exec'), env)
         want = mass_below if given is None else given
+        # ... and the rest of reinit (every top-level statement after the block that holds the mass rule: late set_geometry, tides set-up, config clean-up) runs on the same configuration
+        # with the world mass already set, so that a later write of the derived mass into the configuration is seen as well
+        top = [i for i, n in enumerate(fn.body) if any(x is stm[0] for x in ast.walk(n))][0]
+        tail = fn.body[top + 1:]
+        loader.ENCODED.append({'file': 'TidalPy/structures/world_types/layered.py', 'function': 'LayeredWorld.reinit: statements after the layer loop (AST slice, %d statements)' % len(tail),
+                               'sha256_16': solve.sha_of('\n'.join(ast.unparse(x) for x in tail))})
+        wobj2 = type('W2', (), {'mass': env['mass'], '_config': wcfg, 'config': wcfg, 'tides_on': False, 'set_geometry': lambda self, *a, **k: None})()
+        env2 = {'self': wobj2, 'reinit_geometry': False, 'mass': env['mass'], 'radius': Q.sym('R_world'), 'update_state_geometry': True, 'setup_simple_tides': False, 'np': NP, 'log': type('L', (), {'__getattr__': lambda s, k: (lambda *a, **kw: None)})()}
+        exec(compile(ast.Module(body=tail, type_ignores=[]), 'layered.py:reinit-tail', 'exec'), env2)
 
         def rp_cfg(md):
             out = run_real_world({'kind': 'derived_mass'})
